@@ -46,6 +46,27 @@ PRELUDE = (
 
 
 # ------------------------------------------------------------------ generation
+# operator / operand grid for plain expression statements (no throw possible): every statement must
+# leave the operand stack as it found it, whatever the operator and the values
+EXPR_VALUES = ("0", "-0", "1", "-1", "0.5", "NaN", "Infinity", "-Infinity", "2147483648", "''", "'0'", "'a'", "true", "false",
+               "null", "undefined")   # primitives only: object-to-primitive conversion and ** deviate on the pinned tree (C06/C04)
+EXPR_BIN = ("+", "-", "*", "/", "%", "&", "|", "^", "<<", ">>", ">>>", "<", ">", "<=", ">=", "==", "!=", "===", "!==", "&&", "||", ",")
+EXPR_UN = ("-", "+", "!", "~", "typeof ", "void ")
+
+
+def gen_expr(rng, depth=0):
+    r = rng.random()
+    if depth >= 2 or r < 0.3:
+        return rng.choice(EXPR_VALUES)
+    if r < 0.45:
+        return "(%s(%s))" % (rng.choice(EXPR_UN), gen_expr(rng, depth + 1))
+    if r < 0.55:
+        return "(%s ? %s : %s)" % (gen_expr(rng, depth + 1), gen_expr(rng, depth + 1), gen_expr(rng, depth + 1))
+    op = rng.choice(EXPR_BIN)
+    a, b = gen_expr(rng, depth + 1), gen_expr(rng, depth + 1)
+    return "(%s %s %s)" % (a, op, b)
+
+
 class Gen:
     def __init__(self, rng, profile):
         self.rng = rng
@@ -72,7 +93,7 @@ class Gen:
     def stmt(self, depth, ctx):
         """ctx: dict(fn=index, nfn=count, loops=[(id,label)], in_cb=bool)"""
         rng, pf = self.rng, self.pf
-        choices = [("p", 3), ("d", 4)]
+        choices = [("p", 3), ("d", 4), ("expr", 1.5)]
         if depth < pf["max_depth"]:
             choices += [("try", 4), ("loop", 2)]
             if pf["natives"]:
@@ -105,6 +126,8 @@ class Gen:
                 break
         if name == "p":
             return {"t": "p", "k": self.nk()}
+        if name == "expr":
+            return {"t": "expr", "k": self.nk(), "src": gen_expr(rng)}
         if name == "d":
             form = rng.choice(pf["forms"])
             if ctx.get("in_catch") and "null_prop_mid" in pf["forms"] and rng.random() < 0.4:
@@ -245,6 +268,8 @@ def r_stmt(s, ind=""):
         return "%sp(%d);" % (ind, s["k"])
     if t == "d":
         return ind + _thr(s["form"], s["k"])
+    if t == "expr":
+        return "%svar x%d = %s; x%d = [1, %s, 2].length; %s;" % (ind, s["k"], s["src"], s["k"], s["src"], s["src"])
     if t == "try":
         out = "%stry {\n%s\n%s}" % (ind, r_block(s["b"], i2), ind)
         if s["c"] is not None:
@@ -419,7 +444,9 @@ class Model:
         if self.steps > 20000:
             raise RuntimeError("model step cap")
         t = s["t"]
-        if t == "p":
+        if t == "expr":
+            pass
+        elif t == "p":
             self.log.append(["p", s["k"]])
         elif t == "d":
             self.d(s)
